@@ -305,7 +305,13 @@ def _cmp(ck, rule, fi, label, out, want, region, builder, dtag=None, given=None)
         if "params" in want and "params" in d:
             pv = d["params"]
             if "noparams" in label:
-                if not ((isinstance(pv, shape.L) and not pv.elts) or (given is not None and pv is given)):
+                given_container = given is not None and not (isinstance(given, shape.K) and given.v is None)
+                if not given_container and isinstance(pv, shape.K) and pv.v is None:
+                    # the builder passes None through: acceptable only if its caller never hands it None (decided by C14.3 on dump)
+                    if not hasattr(ck.prog, "_payload_passes_none"):
+                        ck.prog._payload_passes_none = set()
+                    ck.prog._payload_passes_none.add(builder)
+                elif not ((isinstance(pv, shape.L) and not pv.elts) or (given_container and pv is given)):
                     problems.append("empty params must be emitted as [] (or as the empty container given): %r" % (pv,))
             elif not ((isinstance(pv, shape.Sym) and pv.label == "params") or (given is not None and pv is given)):
                 problems.append("\"params\" is %r, not the given params" % (pv,))
